@@ -406,3 +406,95 @@ def require(fx, res, rule, key, body, rx, found, minimum, bad, local_callee=True
     else:
         res.violation(rule, key, body.where(), bad)
     return False
+
+
+def bool_table(body, atoms, max_steps=400):
+    """Truth table of a small bool-returning function over named atoms (abstract interpretation over booleans).
+    atoms: list of (name, regex) — a call whose canonical expression matches the regex yields that atom's value.
+    Returns {assignment(tuple of bools in atom order): True/False/None} where None = the walk met a branch or value it
+    cannot express over the atoms (nothing is concluded then).  Independent of statement order / let-splitting."""
+    import itertools
+    out = {}
+    names = [a[0] for a in atoms]
+    for vals in itertools.product((False, True), repeat=len(atoms)):
+        sig = dict(zip(names, vals))
+        env = {}
+        pc, steps, result = 0, 0, None
+
+        def opval(op):
+            if "int" in op:
+                return bool(op["int"])
+            l = op.get("cp", op.get("mv"))
+            if isinstance(l, int):
+                return env.get(l)
+            return None
+        while steps < max_steps:
+            steps += 1
+            bl = body.blocks[pc]
+            for s in bl["stmts"]:
+                if s["k"] != "assign" or not isinstance(s["place"], int):
+                    continue
+                rv = s["rv"]
+                if rv["k"] == "use":
+                    env[s["place"]] = opval(rv["op"])
+                elif rv["k"] == "unop" and rv.get("op") == "Not":
+                    v = opval(rv["a"])
+                    env[s["place"]] = (not v) if v is not None else None
+                else:
+                    env[s["place"]] = None
+            t = bl["term"]
+            if t["k"] == "goto":
+                pc = t["target"]
+            elif t["k"] == "call":
+                d = t.get("dest")
+                if isinstance(d, int):
+                    e = expr(body, d)
+                    hit = [n for (n, rx) in atoms if re.search(rx, e)]
+                    env[d] = sig[hit[0]] if len(hit) == 1 else None
+                if t.get("target") is None:
+                    break
+                pc = t["target"]
+            elif t["k"] == "switch":
+                v = opval(t["op"])
+                if v is None or t.get("ty") != "bool":
+                    break
+                nxt = t["otherwise"]
+                for (val, tgt) in t["targets"]:
+                    if int(v) == val:
+                        nxt = tgt
+                pc = nxt
+            elif t["k"] == "drop":
+                pc = t["target"]
+            elif t["k"] == "return":
+                result = env.get(0)
+                break
+            else:
+                break
+        out[vals] = result
+    return out
+
+
+TRANSPARENT = r"(?:as_str|as_ref|deref|borrow|as_os_str|as_slice|as_bytes_ref)"
+
+
+def strip_transparent(e):
+    """Drop wrappers that do not change the value (as_str(x), deref(x), as_ref(x) ...) from a canonical expression."""
+    changed = True
+    while changed:
+        changed = False
+        for m in re.finditer(r"\b" + TRANSPARENT + r"\(", e):
+            i, depth, top_comma = m.end(), 1, False
+            while i < len(e) and depth:
+                ch = e[i]
+                if ch == "(":
+                    depth += 1
+                elif ch == ")":
+                    depth -= 1
+                elif ch == "," and depth == 1:
+                    top_comma = True
+                i += 1
+            if depth == 0 and not top_comma:
+                e = e[:m.start()] + e[m.end():i - 1] + e[i:]
+                changed = True
+                break
+    return e
